@@ -213,6 +213,9 @@ def specs(tier: str) -> list[Spec]:
     add("timeout_two_inputs", 2, 2, 5.0, True, [("Resp", "0")], max_dev=d)
     add("two_waits", 1, 1, None, True, [("Resp", "0"), ("Resp", "0b"), ("Resp", "0")], two=True, max_dev=d)
     add("implicit_id", 1, 1, None, True, [("Resp", "0"), ("Resp", "0")], implicit=True, max_dev=None)
+    # default waiter ids: two waits for the same event type whose requirements have the same keys but different values
+    add("implicit_id_two_waits", 1, 1, None, True, [("Resp", "0"), ("Resp", "0b")], two=True, implicit=True, max_dev=None)
+    add("implicit_id_two_inputs", 2, 2, None, True, [("Resp", "1"), ("Resp", "0")], implicit=True, max_dev=d)
     # two sequential waits with timeouts: the first wait's (stale) timeout tick may fire between the two answers
     add("timeout_two_waits", 1, 1, 5.0, True, [("Resp", "0"), ("Resp", "0b")], two=True, max_dev=None if not q else 4)
     add("timeout_two_waits_noreq", 1, 1, 5.0, False, [("Resp", "x"), ("Resp", "y")], two=True, max_dev=None if not q else 4)
